@@ -599,6 +599,18 @@ def _template_key(msg):
     return re.sub(r"'[^']*'", "'_'", re.sub(r'\d+', 'N', msg))[:70]
 
 
+def _driver(ck, reqs):
+    """ck.driver, waiting while a concurrent `lake build` of another check is relinking the driver executable"""
+    import time
+    for attempt in range(40):
+        try:
+            return ck.driver(reqs)
+        except RuntimeError as e:
+            if 'driver executable missing' not in str(e) or attempt == 39:
+                raise
+            time.sleep(5)
+
+
 def run_batch(ck, batch):
     """batch: [(files, origin)] -> [real status or None]"""
     prepared = []
@@ -612,9 +624,9 @@ def run_batch(ck, batch):
         else:
             prepared.append((files, origin, p[1], p[2], p[3]))
     reqs = [r for _f, _o, _a, r, _fl in prepared if r is not None]
-    replies = iter(ck.driver(reqs))
+    replies = iter(_driver(ck, reqs))
     # the hypothesis of the theorems (`compile fs = .ok api`) on every case: how often they speak
-    for hy in ck.driver([dict(r, op='comp.hyps') for r in reqs]):
+    for hy in _driver(ck, [dict(r, op='comp.hyps') for r in reqs]):
         ck.hist('comp.hyps.compile_ok', str(hy.get('compile_ok')))
         if hy.get('compile_ok') is False and hy.get('kind') in NO_VERDICT:
             ck.stat('comp.model_' + hy['kind'])
